@@ -95,6 +95,18 @@ def handleTaintOp (j : Json) : OpOut :=
     let o : Oracle := fun k _ => resps.toArray.getD k .fail
     let dPanic := match obs.getObjVal? "panic" with | .ok _ => ["panic"] | .error _ => []
     let m15 := (Spec.C15.bad nowSec effect none (oJ.zip resps)).map (fun n => "C15:imprecise:" ++ n)
+    -- success reported although the job is not done: the fetched copy needed a write and none was accepted
+    let fetched : Option Node := match oJ.head?, resps.head? with
+      | some ⟨.getNode _, true⟩, some (.node n) => some n
+      | _, _ => none
+    let written : Bool := oJ.any (fun e => e.ok && (match e.call with | .updateNode _ => true | _ => false))
+    let mDone : List String := match fetched with
+      | some n =>
+        if getD obs "ok" false && !written && kind == "add" && !hasTaint escKey n then ["C15:add reported success, yet the fetched node carries no escalator taint and nothing was written"]
+        else if getD obs "ok" false && !written && kind == "delete" && hasTaint escKey n then ["C15:delete reported success, yet the fetched node still carries the escalator taint and nothing was written"]
+        else []
+      | none => []
+    let m15 := m15 ++ mDone
     if kind == "add" then
       let r := addTaint o 0 nowSec effect node
       { diffs := (if Spec.canonTaints r.j == Spec.canonTaints oJ then [] else ["journal"]) ++ (if r.val == getD obs "ok" false then [] else ["ok"]) ++ dPanic,
